@@ -18,7 +18,11 @@ CORRESPONDENCE = ("Model.Its.get_its (build_eta, add_its_nodes, add_its_edges) ~
                   "(_add_its_nodes, _add_its_edges); Model.Its.ITS_from_graphs ~ ITS.from_smiles after "
                   "fgutils.rdkit.smiles_to_graph; compared as labelled graphs (node -> attributes incl. idx_map, "
                   "edge -> label), node and adjacency order are not part of the property")
-RULE = ("random molecule G (gens.rand_mol, 1-8 atoms, rings, orders 1/1.5/2/3) and H = G after random bond edits "
+RULE = ("symbol alphabet: heavy atoms, and in 55% of the random cases also the parser's lower-case aromatic symbols "
+        "(c n o s b p), wildcard R, the '#' placeholder, H, multi-letter and unusual symbols (Xx, Sn, Se, Mg); 12% of the "
+        "get_its cases are the two split_its halves of parse(<generated ITS pattern>, init_aam=True) (lower-case atoms, "
+        "wildcards, labelled nodes with labels / is_labeled), some map numbers removed, re-identified independently; "
+        "random molecule G (gens.rand_mol, 1-8 atoms, rings, orders 1/1.5/2/3) and H = G after random bond edits "
         "(change order, delete, add); map numbers: identity / shuffled / offset / starting at 0; partial maps (aam "
         "missing, negative or 0 on one or both sides); one-sided atoms (deleted on one side, extra atoms with fresh, "
         "absent or negative numbers); differing symbols on the H side; 4% non-injective maps (agree only); node ids of "
@@ -70,9 +74,19 @@ def edit_bonds(rng, h, k, orders=(1, 1, 2, 1.5, 3)):
                 h.add_edge(u, v, bond=rng.choice(orders))
 
 
+# symbols as the pattern parser produces them: lower-case aromatic atoms, wildcard R, the '#' placeholder of labelled
+# nodes, multi-letter and unusual symbols -- "that atom's symbol" must reach the ITS verbatim
+WIDE_SYMS = gens.HEAVY + ["c", "c", "c", "n", "n", "o", "s", "b", "p", "R", "R", "H", "Xx", "Sn", "Se", "#", "Mg"]
+
+
+def pick_syms(rng):
+    return gens.HEAVY if rng.random() < 0.45 else WIDE_SYMS
+
+
 def make_reaction(rng, policy=None):
     policy = policy or rng.choice(POLICIES)
-    g = gens.rand_mol(rng, 1, 8)
+    syms = pick_syms(rng)
+    g = gens.rand_mol(rng, 1, 8, syms=syms)
     n = g.number_of_nodes()
     h = gens.copy_exact(g)
     edit_bonds(rng, h, rng.choice([0, 1, 1, 2, 3, 4]))
@@ -86,7 +100,7 @@ def make_reaction(rng, policy=None):
         g.nodes[i]["aam"] = nums[i]
         h.nodes[i]["aam"] = nums[i]
     if rng.random() < 0.15:
-        h.nodes[rng.randrange(n)]["symbol"] = rng.choice(gens.HEAVY)
+        h.nodes[rng.randrange(n)]["symbol"] = rng.choice(syms)
     if policy in ("partial", "mixed", "zero"):
         for _ in range(rng.randint(1, 3)):
             i = rng.randrange(n)
@@ -109,7 +123,7 @@ def make_reaction(rng, policy=None):
                 x.remove_node(rng.choice(list(x.nodes)))
             else:
                 targets = list(x.nodes)
-                attrs = {"symbol": rng.choice(gens.HEAVY)}
+                attrs = {"symbol": rng.choice(syms)}
                 if how == "extra":
                     attrs["aam"] = fresh
                     fresh += 1
@@ -144,6 +158,36 @@ def make_reaction(rng, policy=None):
     g2, _, _ = gens.reid(rng, g0)
     h2, _, _ = gens.reid(rng, h0)
     return {"op": "get_its", "G": g, "H": h, "G2": g2, "H2": h2, "policy": policy, "scheme": sg + "/" + sh}
+
+
+def make_parsed_reaction(rng, pattern=None):
+    """Reactant / product graphs as the library itself derives them from an ITS pattern: the two halves
+    split_its returns for parse(pattern, init_aam=True) (lower-case aromatic atoms, wildcards, labelled nodes with their
+    labels / is_labeled attributes), optionally with some map numbers removed, re-identified independently."""
+    from fgutils.parse import parse
+    from fgutils.its import split_its
+    from props.c10 import rand_pattern
+    for _ in range(30):
+        pat = pattern or rand_pattern(rng, its=rng.random() < 0.9)
+        try:
+            its = parse(pat, init_aam=True, idx_offset=rng.choice([0, 0, 1, 4]))
+        except Exception:
+            if pattern:
+                raise
+            continue
+        if pattern or any(d["symbol"].islower() or d["symbol"] in ("R", "#") for _, d in its.nodes(data=True)):
+            break
+    g, h = split_its(its)
+    if rng.random() < 0.3:
+        x = rng.choice([g, h])
+        x.nodes[rng.choice(list(x.nodes))].pop("aam", None)
+    g0, h0 = g, h
+    g, sg, _ = gens.reid(rng, g0)
+    h, sh, _ = gens.reid(rng, h0)
+    g2, _, _ = gens.reid(rng, g0)
+    h2, _, _ = gens.reid(rng, h0)
+    return {"op": "get_its", "G": g, "H": h, "G2": g2, "H2": h2, "policy": "parsed", "scheme": sg + "/" + sh,
+            "pattern": pat}
 
 
 VAL = {"C": 4, "N": 3, "O": 2}
@@ -529,7 +573,7 @@ def generate(seed, tier, ncases=None):
                 continue
             except Exception:
                 pass
-        c = make_reaction(rng)
+        c = make_parsed_reaction(rng) if rng.random() < 0.12 else make_reaction(rng)
         if rng.random() < 0.15:
             c = add_derivation(rng, c)
         yield c
@@ -557,6 +601,10 @@ def corpus():
     g2.add_edge(7, 9, bond=1)
     yield {"op": "get_its", "G": g2, "H": gens.copy_exact(g2), "policy": "corpus", "scheme": "corpus"}
     yield smiles_case("[CH3:1][CH:2]=[O:3].[OH2:4]>>[CH3:1][CH:2]([OH:4])[OH:3]")
+    # lower-case aromatic symbols, a wildcard and a labelled node must reach the ITS verbatim
+    import random
+    yield make_parsed_reaction(random.Random(1), "c1ccccn1<0,1>O")
+    yield make_parsed_reaction(random.Random(2), "c1c(<1,0>Br)sc(<0,1>R)c1<,2>{alkyl}")
     for smi, kind in [("CC>>CO>>C", "three_parts"), ("C>>>O", "triple_gt"), ("CC>>xx", "bad_right"), ("CC", "molecule2"),
                       (">>", "only_arrow"), ("[CH3:1][OH:2]>>[CH3:1].[OH2:2]", "ok")]:
         yield dispatch_case(smi, kind)
@@ -647,6 +695,8 @@ def describe(c):
         d["smiles"] = c["smiles"]
     if "kind" in c:
         d["kind"] = c["kind"]
+    if "pattern" in c:
+        d["pattern"] = c["pattern"]
     if "hist" in c:
         d["hist"] = c["hist"]
     for k in ("G2", "H2", "G0", "H0"):
@@ -665,6 +715,8 @@ def from_json(d):
         c["smiles"] = d["smiles"]
     if "kind" in d:
         c["kind"] = d["kind"]
+    if "pattern" in d:
+        c["pattern"] = d["pattern"]
     if "hist" in d:
         c["hist"] = d["hist"]
     for k in ("G2", "H2", "G0", "H0"):
@@ -709,6 +761,11 @@ def classes(c, out):
     yield "result=" + out[0]
     g, h = c["G"], c["H"]
     yield "injective=" + str(injective(g) and injective(h))
+    symset = {d.get("symbol", "") for x in (g, h) for _, d in x.nodes(data=True)}
+    if any(sy.islower() for sy in symset):
+        yield "symbols=lower_case_aromatic"
+    if symset & {"R", "#", "Xx", "Sn", "Se", "Mg"}:
+        yield "symbols=wildcard_or_unusual"
     mg = {d["aam"] for _, d in g.nodes(data=True) if d.get("aam", -1) >= 0}
     mh = {d["aam"] for _, d in h.nodes(data=True) if d.get("aam", -1) >= 0}
     yield "one_sided_numbers=" + ("none" if mg == mh else "G" if mh < mg else "H" if mg < mh else "both")
